@@ -238,7 +238,10 @@ def build_iwc(i):
 def build_irr(r):
     if r is None:
         return None
-    kw = {k: (list(v) if isinstance(v, list) else v) for k, v in r.items() if k not in ("method", "schedule")}
+    kw = {k: (list(v) if isinstance(v, list) else v) for k, v in r.items() if k not in ("method", "schedule", "schedule_param")}
+    if r.get("schedule_param") is not None and r["method"] != 3:
+        sp = r["schedule_param"]
+        kw["Schedule"] = pd.DataFrame({"Date": pd.to_datetime([d for d, _ in sp]), "Depth": np.array([float(x) for _, x in sp], dtype=float)})
     if r["method"] == 3:
         sch = r.get("schedule", [])
         kw["Schedule"] = pd.DataFrame(
